@@ -45,7 +45,19 @@ func runC10(c *Ctx) {
 	w := prove.NewWorld(p)
 	wSetUnits(c, nbtnsPkg, [2]string{"NBTNSPacket", "Marshal"}, [2]string{"NBTNSPacket", "Unmarshal"}, [2]string{"NetBIOSName", "FirstLevelEncode"}, [2]string{"", "FirstLevelDecode"})
 
+	// the encoder core FirstLevelEncode may delegate to (c10_core.go)
+	core := c10FirstLevelCore(c, c.P.Func(nbtnsPkg, "NetBIOSName", "FirstLevelEncode"))
+	if core != nil {
+		wUnits[core] = true
+		r.Note("C10: FirstLevelEncode delegates to %s: the first-level clauses are decided on that function, and its calls in Marshal stand for FirstLevelEncode", wire.FuncLabel(core))
+	}
+
 	enc := wEncoder(c, w, nbtnsPkg, "NBTNSPacket", "Marshal")
+	if enc != nil && core != nil {
+		if fleFn := c.P.Func(nbtnsPkg, "NetBIOSName", "FirstLevelEncode"); fleFn != nil {
+			enc.enc = c10AliasCallee(enc.enc, core, fleFn)
+		}
+	}
 	dec := wDecoder(c, w, nbtnsPkg, "NBTNSPacket", "Unmarshal")
 	fle := wAnchor(c, w, nbtnsPkg, "NetBIOSName", "FirstLevelEncode")
 	fld := wAnchor(c, w, nbtnsPkg, "", "FirstLevelDecode")
@@ -100,7 +112,11 @@ func runC10(c *Ctx) {
 	r.Floor("count", 1)
 	r.Floor("guard", 1)
 	if fle != nil && fld != nil {
-		c.guard("firstlevel", "FirstLevelEncode⇄FirstLevelDecode", fle.pos, func() { c10FirstLevel(c, w, fle, fld) })
+		fleCode := fle
+		if core != nil {
+			fleCode = &wcodec{rel: fle.rel, recv: fle.recv, name: fle.name, fn: core, pos: c.P.Rel(core.Pos())}
+		}
+		c.guard("firstlevel", "FirstLevelEncode⇄FirstLevelDecode", fle.pos, func() { c10FirstLevel(c, w, fleCode, fld) })
 	}
 	r.Floor("firstlevel", 12)
 	r.Extra["layouts"] = layouts
@@ -345,7 +361,22 @@ func c10Length(c *Ctx, w *prove.World, enc, dec *wcodec) {
 				if cv, ok := c09NarrowingOf(la.Val).(ssa.Instruction); ok {
 					at = cv
 				}
-				if !la.Narrow || wProveLenLEDeep(c, w, at, la.LenOf, 255) {
+				// (it is the length of the next atom — wIsLenPrefix above — hence >= 0)
+				// … or the value that is narrowed is itself proved <= 255 at the
+				// conversion (a length computed as a difference of buffer lengths:
+				// nameLen := len(buf) - lengthAt - 1; if nameLen > 255 { return … })
+				valueBounded := false
+				for v := la.Val; v != nil; {
+					cv, isCv := v.(*ssa.Convert)
+					if !isCv {
+						break
+					}
+					if _, isCall := cv.X.(*ssa.Call); !isCall && wProveLE(w, cv, cv.X, 255, false) {
+						valueBounded = true
+					}
+					v = cv.X
+				}
+				if !la.Narrow || valueBounded || wProveLenLEDeep(c, w, at, la.LenOf, 255) {
 					r.OK("length", key, c.P.Rel(la.Pos), "E1: len(encoded) <= 255 where it is narrowed to the length byte (or at every success return of the helper that produced it)")
 				} else if helper := wGuardingHelper(c, at, la.LenOf); helper != nil {
 					wND(c, "length", key, c.P.Rel(la.Pos), "len(encoded) <= 255 is not established by the guards of Marshal itself, but "+helper.Name()+" is called first and its result decides an early exit: the bound may be established there", 1)
@@ -1376,7 +1407,12 @@ func c10FirstLevel(c *Ctx, w *prove.World, fle, fld *wcodec) {
 			}
 		}
 		if !found {
-			nd(encOpaque, padKey, fle.pos, "no padding loop recognised")
+			if pos, why := c10RecycledSource(fle.fn, nameLen); why != "" {
+				// positively observed: the source bytes after the name are not written here
+				r.Fail("firstlevel", padKey, c.P.Rel(pos), why)
+			} else {
+				nd(encOpaque, padKey, fle.pos, "no padding loop recognised")
+			}
 		}
 	}
 	// scope separator: the constant emitted immediately before the ScopeID bytes
@@ -1654,7 +1690,12 @@ func c10FirstLevel(c *Ctx, w *prove.World, fle, fld *wcodec) {
 				if n, ok := c10FixedBuf(wire.StripConv(call.Call.Args[0])); (ok && n == nameLen) || decStore.buf[wire.StripConv(call.Call.Args[0])] {
 					foundTrim = true
 					cut, isK := strArg(1)
-					if isK && padByte >= 0 && cut == string([]byte{byte(padByte)}) {
+					if padByte < 0 {
+						// the encoder's pad byte was not determined (its own clause says why):
+						// there is nothing to compare the cutset with
+						r.OK("firstlevel", key, c.P.Rel(call.Pos()), "NOT DECIDED — the encoder's pad byte was not determined; TrimRight cutset is "+call.Call.Args[1].String())
+						r.Note("C10 firstlevel: %s NOT DECIDED — the encoder's pad byte was not determined", key)
+					} else if isK && cut == string([]byte{byte(padByte)}) {
 						r.OK("firstlevel", key, c.P.Rel(call.Pos()), fmt.Sprintf("TrimRight cutset is the pad byte %#x", padByte))
 					} else {
 						r.Fail("firstlevel", key, c.P.Rel(call.Pos()), fmt.Sprintf("TrimRight removes %s but the encoder pads with %#x", call.Call.Args[1].String(), padByte))
@@ -1702,10 +1743,43 @@ func c10FirstLevel(c *Ctx, w *prove.World, fle, fld *wcodec) {
 			}
 		}
 	}
-	if !foundTrim && decOpaque != "" {
-		nd(decOpaque, key, fld.pos, "no TrimRight of the 16 decoded bytes found in FirstLevelDecode itself")
-	} else if !foundTrim {
-		r.Fail("firstlevel", key, fld.pos, "the decoded 16 bytes are not right-trimmed: the encoder's space padding stays in the name")
+	if !foundTrim {
+		// no TrimRight: how do the decoded bytes become the name? (c10_trim.go)
+		forms := c10TrimForms(dx, fld.fn, c10BufferValues(fld.fn, decStore.st, decStore.buf), decStore.Val, decStore.st, decStore.it, nameLen)
+		var trim, whole, opaque *c10TrimForm
+		for i := range forms {
+			switch forms[i].kind {
+			case "index", "scan":
+				if trim == nil || forms[i].k != padByte {
+					trim = &forms[i]
+				}
+			case "whole":
+				whole = &forms[i]
+			default:
+				opaque = &forms[i]
+			}
+		}
+		switch {
+		case trim != nil && padByte < 0:
+			r.OK("firstlevel", key, c.P.Rel(trim.pos), "NOT DECIDED — the encoder's pad byte was not determined")
+			r.Note("C10 firstlevel: %s NOT DECIDED — the encoder's pad byte was not determined", key)
+		case trim != nil && trim.k == padByte && trim.kind == "index":
+			r.OK("firstlevel", key, c.P.Rel(trim.pos), fmt.Sprintf("the name ends after the last decoded byte that is not the pad byte %#x (index recorded in the decode loop)", padByte))
+		case trim != nil && trim.k == padByte:
+			r.OK("firstlevel", key, c.P.Rel(trim.pos), fmt.Sprintf("trailing bytes equal to the pad byte %#x are dropped by a backwards scan", padByte))
+		case trim != nil:
+			r.Fail("firstlevel", key, c.P.Rel(trim.pos), fmt.Sprintf("the decoder drops trailing bytes equal to %#x but the encoder pads with %#x", trim.k, padByte))
+		case opaque != nil:
+			r.OK("firstlevel", key, c.P.Rel(opaque.pos), "NOT DECIDED — "+opaque.why)
+			r.Note("C10 firstlevel: %s NOT DECIDED — %s", key, opaque.why)
+		case whole != nil:
+			r.Fail("firstlevel", key, c.P.Rel(whole.pos), "the decoded 16 bytes are not right-trimmed: all of them are converted to the name, so the encoder's space padding stays in the name")
+		case decOpaque != "":
+			nd(decOpaque, key, fld.pos, "no TrimRight of the 16 decoded bytes found in FirstLevelDecode itself")
+		default:
+			r.OK("firstlevel", key, fld.pos, "NOT DECIDED — the 16 decoded bytes were not seen to become the name in a form this rule reads (TrimRight, decoded[:end], string(decoded))")
+			r.Note("C10 firstlevel: %s NOT DECIDED — the decoded bytes do not reach the name in a form this rule reads", key)
+		}
 	}
 	key = "scope separator: encoder appends what the decoder splits on"
 	switch {
